@@ -157,28 +157,32 @@ def run(repo: Repo) -> Result:
                             a.lineno,
                         )
             res.sample({"rule": "C10-TRAIL", "alternative": alt.kind, "trailing_hyphen_group": alt.trailing_hyphen_group, "ruleset": rs.condition})
-    # endcomment branch inside comment_depth
+    # closing a block comment: inside the comment-mode block (`if comment_depth:`) the TAG token
+    # that closes the comment is yielded, and on the way from that yield to the end of the
+    # iteration the left-strip flag is taken from the tag rule's trailing hyphen group — found by
+    # the yield, wherever the surrounding tests put it
     res.ob("endcomment-branch")
     tag_alt = next(a for a in lm.rulesets[0].alts if a.kind == "TAG")
-    inner = [b for b in branches if b[0] == "TAG" and b[2]]
+    comment_blocks = [n for n in ast.walk(tok.node) if isinstance(n, ast.If) and is_name(n.test, "comment_depth")]
     ok = False
-    for _k, body, _ in inner:
-        for n in ast.walk(ast.Module(body=body, type_ignores=[])):
-            if isinstance(n, ast.If) and isinstance(n.test, ast.UnaryOp) and isinstance(n.test.op, ast.Not) and is_name(n.test.operand, "comment_depth"):
-                asg = lstrip_assigns(n.body)
-                if asg and all(_group_of(a.value) == tag_alt.trailing_hyphen_group for a in asg):
-                    ok = True
-                for a in asg:
-                    if _group_of(a.value) != tag_alt.trailing_hyphen_group:
-                        res.add("C10-TRAIL", tok.qual, f"endcomment:lstrip<-{_group_of(a.value)}", "the endcomment branch must take the left-strip flag from the tag rule's trailing hyphen group", tok.file, a.lineno)
+    n_close = 0
+    for cb in comment_blocks:
+        for holder in ast.walk(cb):
+            for fld in ("body", "orelse"):
+                blk = getattr(holder, fld, None)
+                if not (isinstance(blk, list) and blk and isinstance(blk[0], ast.stmt)):
+                    continue
+                for i_, st in enumerate(blk):
+                    if isinstance(st, ast.Expr) and isinstance(st.value, ast.Yield) and isinstance(st.value.value, ast.Call) and callee_name(st.value.value) == "Token" and any((k.arg == "kind" and text(k.value) == "TOKEN_TAG") for k in st.value.value.keywords):
+                        n_close += 1
+                        asg = lstrip_assigns(blk[i_ + 1 :])
+                        if asg and all(_group_of(a.value) == tag_alt.trailing_hyphen_group for a in asg):
+                            ok = True
+                        for a in asg:
+                            if _group_of(a.value) != tag_alt.trailing_hyphen_group:
+                                res.add("C10-TRAIL", tok.qual, f"endcomment:lstrip<-{_group_of(a.value)}", "the endcomment branch must take the left-strip flag from the tag rule's trailing hyphen group", tok.file, a.lineno)
     if not ok:
         res.add("C10-TRAIL", tok.qual, "endcomment:lstrip-not-set", "closing a comment block does not set the left-strip flag from the endcomment tag's hyphen", tok.file, tok.line)
-    # every lstrip assignment in the function is one of: False init, or a group read
-    for a in lstrip_assigns(tok.node.body):
-        res.ob("lstrip-assign")
-        if not (isinstance(a.value, ast.Constant) and a.value.value is False) and _group_of(a.value) is None:
-            res.add("C10-TRAIL", tok.qual, f"lstrip<-{text(a.value)[:30]}", f"left-strip flag computed as `{text(a.value)}`", tok.file, a.lineno)
-
     # ---- C10-LEAD ---------------------------------------------------------------
     for rs in lm.rulesets:
         c_alt = next((a for a in rs.alts if a.kind == content_kind), None)
